@@ -396,7 +396,13 @@ def build_conns(spec):
             b.keylog += c.keylog
         elif k == "quic":
             c = quicref.QuicConn(cs)
-            pk = [LPkt(ci, "udp", srv, data, ep, tag="quic") for srv, data, _ in c.datagrams]
+            # a client that changed its network path sends from (and is answered at) another port
+            eps = {0: ep}
+            for pth in set(getattr(c, "paths", []) or [0]):
+                if pth:
+                    eps[pth] = dict(ep, cport=1024 + (ep["cport"] - 1024 + 977 * pth) % 64000)
+            pths = getattr(c, "paths", None) or [0] * len(c.datagrams)
+            pk = [LPkt(ci, "udp", srv, data, eps[pth], tag="quic") for (srv, data, _), pth in zip(c.datagrams, pths)]
             for p, (_, _, chunks) in zip(pk, c.datagrams):
                 p.rec_span = chunks
             segs = None
@@ -564,6 +570,10 @@ def write_capture(b, workdir, pkts=None, container=None, keys=None, name="in"):
             return ("raw", btype, body)
         for pos, btype, blen in c["extra"]:
             items.insert(pos % (len(items) + 1), other_block(btype, blen))
+        # interfaces on which nothing was captured, described anywhere behind the first one, with their own if_tsresol / if_tsoffset
+        for pos, r_, o_ in c.get("idle_ifaces") or []:
+            if c.get("ifaces", 1) == 1:
+                items.insert(pos % (len(items) + 1), ("idb", r_, o_))
         # blocks that do not refer to an interface (name resolution, custom, unknown) may also precede the interface description block
         pre_idb = [other_block(bt, bl) for bt, bl in c.get("extra_pre") or []] + pre_idb
         path = os.path.join(workdir, name + ".pcapng")
